@@ -6,6 +6,7 @@ CONSTANTS
   MapKeys = {}
   Nest = FALSE
   MaxDel = 2
+  Merge = TRUE
   Dups = TRUE
 SPECIFICATION Spec
 INVARIANTS InvOnce InvPlaced InvBetween InvDepClosed InvNothingLost InvPending InvConverge InvPairOrder InvClosed 
